@@ -43,6 +43,7 @@ type tally struct {
 	Samples      []any            `json:"samples"`
 	Restarts     int              `json:"restarts"`
 	NotCallable  []string         `json:"not_callable"`
+	Kills        []killRec        `json:"kills"`
 
 	nt map[uint64]struct{}
 }
@@ -150,6 +151,9 @@ type worker struct {
 	curCancel context.CancelFunc
 	curReason string
 	curSoft   time.Duration
+	curFn     string
+	curItems  []string
+	run       *runaway
 
 	stepCancels map[string]int
 	sampled     map[string]bool
@@ -264,6 +268,7 @@ func (w *worker) selfRestart(why string) {
 	t.Inconclusive = append(t.Inconclusive, "watchdog ("+why+"): "+w.curDesc)
 	t.Counts["inconclusive_watchdog_restart"]++
 	t.Restarts++
+	t.Kills = append(t.Kills, killRec{Fn: w.curFn, Items: w.curItems})
 	out := os.Getenv("VERIF_SHARD_OUT")
 	carry := filepath.Join(filepath.Dir(out), fmt.Sprintf("c13-carry-%d.json", w.r.ShardIdx))
 	if out == "" || !w.r.IsChild {
@@ -291,9 +296,10 @@ func (w *worker) selfRestart(why string) {
 	os.Exit(3)
 }
 
-func (w *worker) begin(idx int64, desc string, cancel context.CancelFunc, fn string) {
+func (w *worker) begin(idx int64, desc string, cancel context.CancelFunc, fn string, items []string) {
 	cpu := cpuTime() // ~1 us
 	w.mu.Lock()
+	w.curFn, w.curItems = fn, items
 	w.curSoft = w.lim.softStep
 	if w.stepCancels[fn] >= stepCancelsForFast {
 		w.curSoft = w.lim.fastStep
@@ -519,25 +525,37 @@ func (w *worker) runChunk(c *chunk) {
 	}
 	n := int(c.to - c.from)
 	tuples := make([][]int, n)
-	cs := make([]any, n)
 	for i := 0; i < n; i++ {
-		tp := c.ts.at(c.from + int64(i))
-		tuples[i] = tp
-		row := make([]any, len(tp))
-		for j, v := range tp {
-			row[j] = v
-		}
-		cs[i] = row
+		tuples[i] = c.ts.at(c.from + int64(i))
 	}
-	start := 0
-	for start < n {
-		// cases at or below the resume point were executed by a previous process
-		for start < n && c.base+int64(start) <= r.Resume {
-			start++
+	// order: the tuples of this chunk that are executed by this process, i.e. not
+	// already done by a previous process image (resume point) and not predicted to
+	// run away (see runaway rules)
+	var order []int
+	items := func(tp []int) []string {
+		it := make([]string, len(tp))
+		for j, v := range tp {
+			it[j] = c.pool.items[v].Expr
 		}
-		if start >= n {
-			return
+		return it
+	}
+	for i := 0; i < n; i++ {
+		if c.base+int64(i) <= r.Resume {
+			continue
 		}
+		if w.run.skip(f.Key.String(), items(tuples[i])) {
+			w.mu.Lock()
+			t.Counts["inconclusive_skipped_predicted_runaway"]++
+			if t.Counts["inconclusive_skipped_predicted_runaway"] <= 3 {
+				t.Inconclusive = append(t.Inconclusive, "not executed (same arguments ran into the watchdog for other inputs): "+caseShort(f, c.pool, tuples[i]))
+			}
+			w.mu.Unlock()
+			continue
+		}
+		order = append(order, i)
+	}
+	p := 0
+	for p < len(order) {
 		s, err := w.session()
 		if err != nil {
 			w.mu.Lock()
@@ -545,8 +563,16 @@ func (w *worker) runChunk(c *chunk) {
 			w.mu.Unlock()
 			return
 		}
+		cs := make([]any, 0, len(order)-p)
+		for _, i := range order[p:] {
+			row := make([]any, len(tuples[i]))
+			for j, v := range tuples[i] {
+				row[j] = v
+			}
+			cs = append(cs, row)
+		}
 		ctx, cancel := context.WithCancel(context.Background())
-		input := map[string]any{"g": cliState(), "o": c.pool.optVals, "cs": cs[start:]}
+		input := map[string]any{"g": cliState(), "o": c.pool.optVals, "cs": cs}
 		w.evalsOnSession++
 		var it gojq.Iter
 		pv, stack := core.Protect(func() { it, err = s.I.Eval(ctx, input, c.prog, interp.EvalOpts{}) })
@@ -554,7 +580,7 @@ func (w *worker) runChunk(c *chunk) {
 			cancel()
 			w.mu.Lock()
 			t.Viol = append(t.Viol, tviol{"panic:compile:" + f.Key.String() + ":" + panicSite(stack),
-				"compiling a call of " + f.Key.String() + " panicked: " + core.PanicString(pv), mkCase(f, c.pool, tuples[start])})
+				"compiling a call of " + f.Key.String() + " panicked: " + core.PanicString(pv), mkCase(f, c.pool, tuples[order[p]])})
 			w.mu.Unlock()
 			w.dropSession()
 			return
@@ -566,13 +592,13 @@ func (w *worker) runChunk(c *chunk) {
 			w.mu.Unlock()
 			return
 		}
-		k := start
 		broke := false
-		for k < n {
+		for p < len(order) {
+			k := order[p]
 			idx := c.base + int64(k)
 			desc := caseShort(f, c.pool, tuples[k])
 			r.Case(idx, desc)
-			w.begin(idx, desc, cancel, f.Key.String())
+			w.begin(idx, desc, cancel, f.Key.String(), items(tuples[k]))
 			var v any
 			var ok bool
 			pv, stack := core.Protect(func() { v, ok = it.Next() })
@@ -613,7 +639,7 @@ func (w *worker) runChunk(c *chunk) {
 			if w.highMem.Swap(false) {
 				debug.FreeOSMemory()
 			}
-			k++
+			p++
 			if broke {
 				break
 			}
@@ -626,10 +652,90 @@ func (w *worker) runChunk(c *chunk) {
 		} else {
 			// drain so that fq releases the evaluation context
 			core.Protect(func() { it.Next() })
-			_ = s.Stdout()
 		}
-		start = k
+		if w.sess != nil {
+			_ = w.sess.Stdout()
+		}
 	}
+}
+
+// ---------------------------------------------------------------------------
+// Runaway rules. Some argument values make a function compute or allocate for
+// minutes without being wrong (hexdump({line_bytes: 2^31}) prints a 2 GiB wide
+// line); Go code does not honour the context, so each such case costs a watchdog
+// kill (process re-exec). To keep that bounded, kills are remembered (they travel
+// with the tally through the re-exec) and:
+//   L1: once a function was killed for 2 different inputs with the same argument
+//       vector, its remaining inputs for that argument vector are not executed;
+//   L2: (arity >= 2) once a value X in argument position j was involved in kills
+//       with 2 different settings of the other arguments, tuples with X in position
+//       j are not executed.
+// Not executed tuples are counted as inconclusive (inconclusive_skipped_predicted_
+// runaway); a kill or a skip is never a violation. Arity-0 functions have no rule.
+
+type killRec struct {
+	Fn    string   `json:"fn"`
+	Items []string `json:"items"` // input, arg1, ..
+}
+
+type runaway struct {
+	l1 map[string]bool
+	l2 map[string]bool
+}
+
+func newRunaway(kills []killRec) *runaway {
+	ra := &runaway{l1: map[string]bool{}, l2: map[string]bool{}}
+	inputs := map[string]map[string]bool{}
+	others := map[string]map[string]bool{}
+	for _, k := range kills {
+		if len(k.Items) < 2 {
+			continue
+		}
+		vk := k.Fn + "\x00" + strings.Join(k.Items[1:], "\x00")
+		if inputs[vk] == nil {
+			inputs[vk] = map[string]bool{}
+		}
+		inputs[vk][k.Items[0]] = true
+		if len(inputs[vk]) >= 2 {
+			ra.l1[vk] = true
+		}
+		if len(k.Items) >= 3 {
+			for j := 1; j < len(k.Items); j++ {
+				ik := fmt.Sprintf("%s\x00%d\x00%s", k.Fn, j, k.Items[j])
+				var rest []string
+				for m := 1; m < len(k.Items); m++ {
+					if m != j {
+						rest = append(rest, k.Items[m])
+					}
+				}
+				if others[ik] == nil {
+					others[ik] = map[string]bool{}
+				}
+				others[ik][strings.Join(rest, "\x00")] = true
+				if len(others[ik]) >= 2 {
+					ra.l2[ik] = true
+				}
+			}
+		}
+	}
+	return ra
+}
+
+func (ra *runaway) skip(fn string, items []string) bool {
+	if ra == nil || len(items) < 2 || (len(ra.l1) == 0 && len(ra.l2) == 0) {
+		return false
+	}
+	if ra.l1[fn+"\x00"+strings.Join(items[1:], "\x00")] {
+		return true
+	}
+	if len(items) >= 3 && len(ra.l2) > 0 {
+		for j := 1; j < len(items); j++ {
+			if ra.l2[fmt.Sprintf("%s\x00%d\x00%s", fn, j, items[j])] {
+				return true
+			}
+		}
+	}
+	return false
 }
 
 func (w *worker) onResult(c *chunk, tp []int, v any) {
